@@ -6,6 +6,8 @@ Line-protocol driver for the aggregate / disaggregate / arip model (property C12
   rt   <F> <T> <start> <dmethod> <method> <nv> <n> v…        aggregate(disaggregate(s, T, dmethod), F, method)
   aripsys <kkt 0|1> <nLow> <nWithin> <rho> <const> sigma… agg… low… target…   ->  F | C   (QMat text)
   arip    <kkt 0|1> …same…                                                     ->  x_0 … x_{nHigh-1}
+  aripmv  <kkt 0|1> variant | variant | …   (each variant as for arip)          ->  x… | x… | …
+  opt  <discard_missing -|0|1> <remove_missing -|0|1> <method -|name> <F> <T> <start> <nv> <n> v…   keyword resolution
 
 Series reply: `<freq> <start|none> <nrows> v…`; values are `nan` or `num/den`.
 -/
@@ -91,6 +93,21 @@ def step (line : String) : String :=
         | some s => showR showSer (do let d ← disaggregate s t dm; aggregate d f m false none)
         | none => "bad-op")
     | _, _, _, _, _, _, _ => "bad-op"
+  | "opt" :: dm :: rm :: meth :: f :: t :: start :: nv :: n :: vals =>
+    let ob? : String → Option (Option Bool) := fun x => if x = "-" then some none else if x = "1" then some (some true) else if x = "0" then some (some false) else none
+    let om? : String → Option (Option Method) := fun x => if x = "-" then some none else (Method.ofString? x).map some
+    match ob? dm, ob? rm, om? meth, Freq.ofLetter? f, Freq.ofLetter? t, start.toInt?, nv.toNat?, n.toNat? with
+    | some dm, some rm, some meth, some f, some t, some start, some nv, some n =>
+      (match parseSer? f start nv n vals with
+        | some s => showR showSer (aggregateOpts s t meth dm rm none)
+        | none => "bad-op")
+    | _, _, _, _, _, _, _, _ => "bad-op"
+  | "aripmv" :: kkt :: rest =>
+    -- variants separated by "|", each `<nLow> <nWithin> <rho> <const> sigma… agg… low… target…`; replies joined by " | "
+    let parts := ((" ".intercalate rest).splitOn "|").map (fun p => words p)
+    (match parts.mapM parseArip? with
+      | some vs => " | ".intercalate ((aripSolveAll vs (kkt == "1")).map (showR (fun (x : List Rat) => " ".intercalate (x.map showRat))))
+      | none => "bad-op")
   | "aripsys" :: kkt :: rest =>
     (match parseArip? rest with
       | some a => showR (fun (p : QMat × QMat) => p.1.toText ++ " | " ++ p.2.toText) (aripSystem a (kkt == "1"))
